@@ -192,6 +192,21 @@ class KeyedList(Generic[ItemType, KeyType], MutableSequence, KeyedBase):  # pyli
         self._list.insert(index, item)
         self._dict[key] = item
 
+    def extend(self, values):
+        # Validate the whole batch first so that a rejected item does not leave
+        # a prefix of `values` behind (also used by `+=`).
+        items = [self._validate_item(value) for value in list(values)]
+        keys = set()
+        for _, key in items:
+            if key in self._dict or key in keys:
+                raise ValueError(
+                    f"Item with key `{repr(key)}` already in `{type_label(self._type)}`."
+                )
+            keys.add(key)
+        for item, key in items:
+            self._list.append(item)
+            self._dict[key] = item
+
     def reverse(self):
         # The mixin implementation swaps items pairwise through `__setitem__`,
         # which transiently duplicates keys; reversing cannot change the keys.
